@@ -601,11 +601,11 @@ def coq_case(c, observed):
     return f'({fs}, {coq_string(c["name"])}, {coq_string(c["ext"])}, {coq_string(observed)})'
 
 
-def stream_names(ctx):
+def stream_names(ctx, only=None):
     st = ctx.stream('names', 'directories with 0-105 taken candidates, gaps, decoys of other bases/extensions, '
                     'unpadded near-misses and same-named directories; non-trivial = at least one candidate taken; '
                     'distinct by (files, dirs, name, ext)')
-    cases = gen_name_cases(ctx.sub_rng('names'), ctx.n(150, 3000))
+    cases = only if only is not None else gen_name_cases(ctx.sub_rng('names'), ctx.n(150, 3000))
     res = ctx.impl('c14_names.py', cases)
     items = []
     for c, r in zip(cases, res):
@@ -687,6 +687,21 @@ def coq_check_batches(ctx, stream, st, prefix, header, chk_def, items, cases, re
                 st.disagree(cases[i0 + j], 'model (generated from source) differs', results[i0 + j])
 
 
+def run_chunks(ctx, script, cases, nproc, wrap=None, timeout=1500):
+    """run the implementation on `cases` split over nproc subprocesses (each pays the 2-3 s import of biogeme);
+    returns the results in case order"""
+    nproc = max(1, min(nproc, len(cases)))
+    chunks = [cases[i::nproc] for i in range(nproc)]
+    res_chunks = ctx.impl_parallel(script, [wrap(ch) if wrap else ch for ch in chunks], timeout=timeout)
+    res = [None] * len(cases)
+    for ci, rc in enumerate(res_chunks):
+        if not isinstance(rc, list) or len(rc) != len(chunks[ci]):
+            raise RuntimeError(f'{script}: malformed result for chunk {ci}: {str(rc)[:200]}')
+        for j, r in enumerate(rc):
+            res[ci + nproc * j] = r
+    return res
+
+
 def finish_stream(ctx, name, st):
     if st.disagreements:
         d = st.disagreements[0]
@@ -762,17 +777,12 @@ def gen_backup_cases(rng, n):
     return cases
 
 
-def stream_backup(ctx, n=None, with_model=True):
+def stream_backup(ctx, n=None, with_model=True, only=None):
     st = ctx.stream('backup', 'create_backup on directories with 0-12 taken backup names (some taken by directories), gaps, '
                     'near-misses, targets with no / several / leading dots and sub-directories, absent targets; '
                     'non-trivial = target present and first backup name taken; distinct by case')
-    cases = gen_backup_cases(ctx.sub_rng('backup'), n or ctx.n(120, 2500))
-    chunks = [cases[i::16] for i in range(16) if cases[i::16]]
-    res_chunks = ctx.impl_parallel('c14_backup.py', chunks)
-    res = [None] * len(cases)
-    for ci, rc in enumerate(res_chunks):
-        for j, r in enumerate(rc):
-            res[ci + 16 * j] = r
+    cases = only if only is not None else gen_backup_cases(ctx.sub_rng('backup'), n or ctx.n(120, 2500))
+    res = run_chunks(ctx, 'c14_backup.py', cases, ctx.n(4, 16))
     items, icases, ires = [], [], []
     for c, r in zip(cases, res):
         present = c['target'] in c['files']
@@ -828,12 +838,12 @@ BOOL_BASE = ['True', 'true', 'Yes', 'yes', 'False', 'false', 'No', 'no', 'TRUE',
              'nO', 'yEs', 'T', 'F', 'TrueFalse', 'no no']
 
 
-def stream_boolean(ctx, with_model=True):
+def stream_boolean(ctx, with_model=True, only=None):
     st = ctx.stream('boolean', 'parse_boolean on the accepted spellings, case / whitespace / prefix variants and random '
                     'mutations; every string is a distinct decision (all non-trivial); distinct by string')
     rng = ctx.sub_rng('boolean')
-    cases = list(BOOL_BASE)
-    for _ in range(ctx.n(60, 600)):
+    cases = list(BOOL_BASE) if only is None else list(only)
+    for _ in range(ctx.n(60, 600) if only is None else 0):
         s = rng.choice(BOOL_BASE[:8])
         m = rng.random()
         if m < 0.3:
@@ -1061,22 +1071,16 @@ def eval_history(ctx, st, case, r, items, imeta):
     return taken
 
 
-def stream_history(ctx, n=None, with_model=True):
+def stream_history(ctx, n=None, with_model=True, only=None):
     st = ctx.stream('history', 'histories of the real writers (write_html/latex/f12/pickle, BIOGEME(), estimate, estimate(recycle), '
                     'validate, Parameters.dump_file, dump_on_file, generate_flat_panel_dataframe(save_on_file), create_backup) in '
                     'directories with decoys; snapshot (sha256, mtime) after every operation; non-trivial = at least one '
                     'operation found its first candidate name taken; distinct by (decoys, operations)')
     rng = ctx.sub_rng('history')
-    cases = load_corpus('history')
-    ncorp = len(cases)
-    for _ in range(n or ctx.n(48, 800)):
+    cases = load_corpus('history') if only is None else list(only)
+    for _ in range((n or ctx.n(48, 800)) if only is None else 0):
         cases.append(gen_history_case(rng, rng.randint(*ctx.n((5, 10), (8, 25)))))
-    chunks = [cases[i::16] for i in range(16) if cases[i::16]]
-    res_chunks = ctx.impl_parallel('c14_history.py', chunks, timeout=1500)
-    res = [None] * len(cases)
-    for ci, rc in enumerate(res_chunks):
-        for j, r in enumerate(rc):
-            res[ci + 16 * j] = r
+    res = run_chunks(ctx, 'c14_history.py', cases, ctx.n(12, 16))
     items, imeta = [], []
     nsteps = 0
     for c, r in zip(cases, res):
@@ -1166,7 +1170,7 @@ def coq_pvalue(t):
     return '(PStr "?unknown")'
 
 
-def stream_toml(ctx, n=None, with_model=True):
+def stream_toml(ctx, n=None, with_model=True, only=None):
     st = ctx.stream('toml', 'admissible assignments of ALL parameters of default_parameters.py (respecting each check function: '
                     'booleans, integers in range incl. > 2^64, floats incl. 1e-300, 0.1, 1/3, denormals, max, inf/nan where '
                     'allowed, every algorithm name, strings with quotes / escapes / unicode) dumped with dump_file and read by a '
@@ -1188,19 +1192,17 @@ def stream_toml(ctx, n=None, with_model=True):
     def assignment(fn):
         return [{'name': prm['name'], 'section': prm['section'], 'v': fn(prm)} for prm in params]
 
-    cases.append(assignment(lambda prm: prm['default'][:2]))
-    for b in (True, False):
-        cases.append(assignment(lambda prm: ['b', b] if prm['type'] == 'bool' else prm['default'][:2]))
-    for _ in range(n or ctx.n(60, 1200)):
+    if only is not None:
+        cases = list(only)
+    else:
+        cases.append(assignment(lambda prm: prm['default'][:2]))
+        for b in (True, False):
+            cases.append(assignment(lambda prm: ['b', b] if prm['type'] == 'bool' else prm['default'][:2]))
+    for _ in range((n or ctx.n(60, 1200)) if only is None else 0):
         mode = 'ascii' if rng.random() < 0.8 else 'any'
         cases.append(assignment(lambda prm: admissible_value(rng, prm, algos, mode)
                                 if rng.random() < 0.85 else prm['default'][:2]))
-    chunks = [cases[i::16] for i in range(16) if cases[i::16]]
-    res_chunks = ctx.impl_parallel('c14_toml.py', [{'mode': 'roundtrip', 'cases': ch} for ch in chunks])
-    res = [None] * len(cases)
-    for ci, rc in enumerate(res_chunks):
-        for j, r in enumerate(rc):
-            res[ci + 16 * j] = r
+    res = run_chunks(ctx, 'c14_toml.py', cases, ctx.n(4, 16), wrap=lambda ch: {'mode': 'roundtrip', 'cases': ch})
     items, icases, ires = [], [], []
     how = 'Parameters(); set_value for every entry of the witness; dump_file(f); Parameters().read_file(f); compare get_value'
     dflt_of = {(prm['name'], prm['section']): prm['default'][:2] for prm in params}
@@ -1238,25 +1240,286 @@ def stream_toml(ctx, n=None, with_model=True):
     finish_stream(ctx, 'toml', st)
 
 
+# ---------------------------------------------------------------------------- streams reports / pickle
+R_NAMES = ['b_1', 'b-2', 'beta_time_2', 'asc-car', 'B_COST', 'x9', 'p10', 'lambda', 'mu_nest-1', 'abcdefghij', 'abcdefghijk',
+           'abcdefghij_2', 'long_name_over_10', 'a_very_long_parameter_name_exceeding_thirty_chars_1',
+           'a_very_long_parameter_name_exceeding_thirty_chars_2', 'sigma_panel_0123456789', 'b', 'B', 'beta-with-many-dashes-in-it']
+R_VALUES = [1.2345678, -0.000123, 0.0, 5000.3, 1e-5, 1234.5, 1e10, 123456.789, 9.996, 0.09996, -1.0, 1e-300, 999.5, -42.0,
+            3.14159e-7, 2.5, 100000.0, 0.1, 1 / 3, -999.96, 1e5, 0.000999949, 12345.678e-20, 7.0]
+
+
+def gen_result_spec(rng, model='rep'):
+    K = rng.choice([1, 2, 2, 3, 4, 5, 6, 8])
+    names = rng.sample(R_NAMES, K)
+    values = [rng.choice(R_VALUES) if rng.random() < 0.7 else rng.uniform(-10, 10) * 10 ** rng.randint(-4, 4) for _ in range(K)]
+    lb, ub = [None] * K, [None] * K
+    if rng.random() < 0.4:
+        for i in range(K):
+            r = rng.random()
+            if r < 0.3:
+                lb[i] = f2h(values[i])            # active lower bound
+            elif r < 0.5:
+                ub[i] = f2h(values[i])
+            elif r < 0.8:
+                lb[i], ub[i] = f2h(values[i] - 5.0 - abs(values[i])), f2h(values[i] + 5.0 + abs(values[i]))
+    return {'model': model, 'names': names, 'values': [f2h(v) for v in values], 'lb': lb, 'ub': ub,
+            'n': rng.choice([20, 57, 1000]), 'seed': rng.randint(0, 10 ** 6),
+            'bootstrap': rng.choice([0, 0, 0, 5, 12]), 'null': rng.random() < 0.7, 'notes': rng.choice([None, 'some notes'])}
+
+
+def frac_of_text(t):
+    t = t.strip()
+    m = re.fullmatch(r'([+-]?)(\d+)(?:\.(\d*))?(?:[eE]([+-]?\d+))?', t)
+    if not m:
+        return None
+    sign, ip, fp, ex = m.group(1), m.group(2), m.group(3) or '', int(m.group(4) or 0)
+    v = Fraction(int(ip + fp), 10 ** len(fp)) * Fraction(10) ** ex
+    return -v if sign == '-' else v
+
+
+def printed_ok(text, value, digits):
+    """text shows `value` rounded to `digits` significant digits: exact rational comparison,
+    tolerance = half a unit of the last significant digit at the magnitude of the printed number"""
+    p = frac_of_text(text)
+    if p is None:
+        return False
+    v = Fraction(value)
+    if p == 0:
+        return abs(v) < Fraction(1, 10 ** 300) or v == 0
+    e = 0
+    a = abs(p)
+    while a >= 10:
+        a /= 10
+        e += 1
+    while a < 1:
+        a *= 10
+        e -= 1
+    tol = Fraction(1, 2) * Fraction(10) ** (e - digits + 1)
+    return abs(p - v) <= tol
+
+
+def parse_reports(r):
+    """-> dict of row lists [(label, value text)] per report + columns"""
+    out = {}
+    h = r['html']
+    i = h.find('<h1>Estimated parameters</h1>')
+    seg = h[i: h.find('</table>', i)] if i >= 0 else ''
+    out['html_cols'] = re.findall(r'<th>(.*?)</th>', seg)[1:]
+    out['html'] = [(m.group(1), re.findall(r'<td>(.*?)</td>', m.group(2))) for m in
+                   re.finditer(r'<tr class=biostyle><td>(.*?)</td>((?:<td>.*?</td>)*)</tr>', seg)]
+    la = r['latex']
+    i = la.find('\\section{Parameter estimates}')
+    j = la.find('\\end{tabular}', i)
+    lines = [l for l in la[i:j].splitlines() if l.rstrip().endswith('\\\\')] if i >= 0 else []
+    rows = [[c.strip() for c in l.rstrip()[:-2].split(' & ')] for l in lines]
+    out['latex_cols'] = rows[0][1:] if rows else []
+    out['latex'] = [(x[0], x[1:]) for x in rows[1:]]
+    f = r['f12'].split('\n')
+    out['f12'] = []
+    for l in f[3:]:
+        if l.startswith('  -1'):
+            break
+        out['f12'].append((l[5:15], l[15:17], l[18:].split()))
+    out['str'] = []
+    for l in r['str'].split('\n'):
+        m = re.match(r'^(.{15,}?): ([^\[]*)(\[.*)?$', l)
+        if m and not l.startswith('('):
+            out['str'].append((m.group(1), m.group(2)))
+    return out
+
+
+def stream_reports(ctx, n=None, with_model=True, only=None):
+    st = ctx.stream('reports', 'synthetic results (real RawResults / bioResults constructors) with 1-8 parameters whose names '
+                    'contain _, -, digits, are longer than 10 and than 30 characters or share their first 10 characters; active '
+                    'bounds, bootstrap, both only_robust settings; get_html / get_latex / get_f12 / str / short_summary / '
+                    'get_estimated_parameters rendered and parsed back: every parameter listed, in order, with its value to the '
+                    'printed precision; non-trivial = a name longer than 10 characters or a value printed in exponent notation; '
+                    'distinct by (names, values, flags)')
+    rng = ctx.sub_rng('reports')
+    cases = load_corpus('reports') if only is None else list(only)
+    for _ in range((n or ctx.n(64, 1600)) if only is None else 0):
+        cases.append({'spec': gen_result_spec(rng), 'only_robust': rng.random() < 0.5, 'robust_std_err': rng.random() < 0.5})
+    res = run_chunks(ctx, 'c14_reports.py', cases, ctx.n(8, 16), wrap=lambda ch: {'mode': 'reports', 'cases': ch})
+    items, icases, ires = [], [], []
+    how = ('build the results object from the witness spec (lib/impl/c14_fake.make_results) and render it: '
+           './check C14 --replay <this file>')
+    for c, r in zip(cases, res):
+        sp = c['spec']
+        names, values = sp['names'], [h2f(v) for v in sp['values']]
+        st.record(c, nontrivial=any(len(nm) > 10 for nm in names) or any(v != 0 and not 1e-4 <= abs(v) < 1000 for v in values))
+        if not r.get('ok'):
+            ctx.violation('C14/reports/exception', f'a report could not be generated: {r.get("exc")}: {r.get("msg")}', c, 'all reports', r, how)
+            continue
+        P = parse_reports(r)
+        problems = []
+
+        def check(kind, rows, label_of, digits, text_of):
+            if [x[0] for x in rows] != [label_of(nm) for nm in names]:
+                problems.append((kind, 'parameters listed', [label_of(nm) for nm in names], [x[0] for x in rows]))
+                return
+            for (lab, cells), v in zip(rows, values):
+                t = text_of(cells)
+                if t is None or not printed_ok(t, v, digits):
+                    problems.append((kind + '-value', lab, repr(v), t))
+
+        check('html', P['html'], lambda nm: nm, 3, lambda cells: cells[0] if cells else None)
+        check('latex', P['latex'], lambda nm: nm, 3, lambda cells: cells[0] if cells else None)
+        # F12 has a fixed-width label field: the label must be a non-empty prefix of the name (the exact width is
+        # compared with the generated model below)
+        f12rows = [(nm if (a.strip() and nm.startswith(a.strip())) else a, c3) for (a, _, c3), nm in zip(P['f12'], names)]
+        f12rows += [(a, c3) for a, _, c3 in P['f12'][len(names):]]
+        check('f12', f12rows, lambda nm: nm, 13, lambda cells: cells[0] if cells else None)
+        check('str', P['str'], lambda nm: f'{nm:15}', 3, lambda cells: cells)
+        tb = r['table']
+        if tb['index'] != names or not tb['columns'] or tb['columns'][0] != 'Value' or \
+                [row[0] for row in tb['values']] != sp['values']:
+            problems.append(('table', 'index / Value column', names, tb['index']))
+        if f'Nbr of parameters:\t\t{len(names)}\n' not in r['short'] or r['nparam'] != len(names):
+            problems.append(('short', 'number of parameters', len(names), r['short'][:80]))
+        for pr in problems:
+            key = 'C14/reports/' + pr[0]
+            if pr[0] == 'latex-value' and pr[3] and re.search(r'e[+-]?\d+\.0$|n\.0$|f\.0$', pr[3]):
+                key = 'C14/reports/latex-malformed-number'
+            ctx.violation(key, f'{pr[0]}: {pr[1]}: expected {str(pr[2])[:200]}, found {str(pr[3])[:200]}', c,
+                          'every parameter listed with its value', {'problem': pr}, how)
+        if with_model and all(is_ascii(nm) for nm in names):
+            def active(i):
+                v = Fraction(values[i])
+                return any(b is not None and abs(v - Fraction(h2f(b))) <= Fraction(1, 10 ** 6) for b in (sp['lb'][i], sp['ub'][i]))
+            aab = any(active(i) for i in range(len(names)))
+            S = lambda l: coq_list([cstr(x) for x in l])
+            items.append(f'({S(names)}, {coq_bool(aab)}, {coq_bool(c["only_robust"])}, {coq_bool(bool(sp["bootstrap"]))}, '
+                         f'{coq_string(str(sp["bootstrap"]))}, ({S(P["html_cols"])}, {S(tb["columns"])}, {S([x[0] for x in P["html"]])}, '
+                         f'{S([x[0] for x in P["latex"]])}), ({S([x[0].lstrip(" ") for x in P["f12"]])}, {S([x[0].rstrip(" ") for x in P["str"]])}))')
+            icases.append(c)
+            ires.append({'html_cols': P['html_cols'], 'f12': [x[0] for x in P['f12']]})
+    if with_model:
+        header = ('From BV Require Import Model.PyBase Model.FsOps Model.Reports Gen.Reports.\nOpen Scope string_scope.\n' + SOB +
+                  'Fixpoint leq (a b : list string) : bool := match a, b with nil, nil => true\n'
+                  '  | cons x r, cons y s => String.eqb x y && leq r s | _, _ => false end.\n'
+                  'Fixpoint number {A} (k : nat) (l : list A) : list (A * nat) := match l with nil => nil | cons x r => cons (x, k) (number (S k) r) end.\n')
+        chk = ('Definition chk (c : list string * bool * bool * bool * string * (list string * list string * list string * list string)\n'
+               '                 * (list string * list string)) : bool :=\n'
+               "  let '(names, aab, orb, boot, nb, (hcols, tcols, hnames, lnames), (flabels, snames)) := c in\n"
+               '  let betas := number 0 names in\n'
+               '  let T := gep_table fst aab orb boot nb betas in\n'
+               '  let TF := gep_table fst aab false boot nb betas in\n'
+               '  leq (map fst (gep_columns aab orb boot nb)) hcols && leq (map fst (gep_columns aab orb boot nb)) tcols &&\n'
+               '  leq (map fst (html_rows T)) hnames && leq (map fst T) lnames &&\n'
+               '  leq (map (fun r => fst (fst r)) (f12_rows TF)) flabels &&\n'
+               '  leq (map (fun r => fst (fst r)) (str_rows fst betas)) snames.\n')
+        coq_check_batches(ctx, 'reports', st, 'reports', header, chk, items, icases, ires, B=100)
+    finish_stream(ctx, 'reports', st)
+
+
+def stream_pickle(ctx, n=None, only=None):
+    st = ctx.stream('pickle', 'synthetic results (1-8 parameters, with / without bootstrap, Hessian, null log likelihood, bounds) '
+                    'saved with write_pickle and re-loaded with bioResults(pickle_file=...), twice: every attribute of the raw '
+                    'record compared exactly (floats and arrays bit-for-bit), all reports compared modulo the timestamp; '
+                    'non-trivial = has a Hessian (statistics recomputed on load); distinct by spec')
+    rng = ctx.sub_rng('pickle')
+    cases = load_corpus('pickle') if only is None else list(only)
+    for _ in range((n or ctx.n(48, 1200)) if only is None else 0):
+        sp = gen_result_spec(rng, model=rng.choice(['pk', 'my model', 'a~00']))
+        sp['hessian'] = rng.random() < 0.85
+        cases.append({'spec': sp})
+    res = run_chunks(ctx, 'c14_reports.py', cases, ctx.n(8, 16), wrap=lambda ch: {'mode': 'pickle', 'cases': ch})
+    how = 'make_results(spec).write_pickle(); bioResults(pickle_file=name): ./check C14 --replay <this file>'
+    for c, r in zip(cases, res):
+        st.record(c, nontrivial=c['spec'].get('hessian', True))
+        if not r.get('ok'):
+            ctx.violation('C14/pickle/exception', f'results could not be saved / re-loaded: {r.get("exc")}: {r.get("msg")}', c,
+                          'the same results', r, how)
+            continue
+        if r['diff'] or r['diff2']:
+            ctx.violation('C14/pickle/attribute-differs', f'attributes differ after re-loading: {(r["diff"] or r["diff2"])[:5]}', c,
+                          'every estimate / statistic identical', r, how)
+        if r['report_diff']:
+            ctx.violation('C14/pickle/report-differs', f'reports differ after re-loading: {r["report_diff"]}', c, 'identical reports', r, how)
+        if not r['fresh'] or r['name2'] == r['name']:
+            ctx.violation('C14/pickle/not-fresh', 'write_pickle reused an existing name', c, 'a new name', r, how)
+        if not r['threshold_equal']:
+            st.disagree(c, 'same identification threshold', r)
+    finish_stream(ctx, 'pickle', st)
+
+
+GENERATORS = (('Files', gen_files), ('Backup', gen_backup), ('Params', gen_params), ('Reports', gen_reports),
+              ('Results', gen_results))
+
+
 def gen_all(ctx):
-    gen_files(ctx)
-    gen_backup(ctx)
-    gen_params(ctx)
-    gen_reports(ctx)
-    gen_results(ctx)
+    for _, g in GENERATORS:
+        g(ctx)
 
 
 def run(ctx):
     ctx.assumptions += ASSUME
-    for name, g in (('Files', gen_files), ('Backup', gen_backup), ('Params', gen_params), ('Reports', gen_reports),
-                    ('Results', gen_results)):
+    ctx.trusted += [
+        'tie A: translator /verif/lib/py2v (fail-closed) for filenames.get_new_file_name, tools.files.create_backup (with the '
+        'side effects os.rename / shutil.copy rewritten into a returned effect value) and parameters.parse_boolean; specialised '
+        'fail-closed ast extractors in lib/props/C14.py for the boolean coding of generate_document, the value branch of '
+        'import_document, the row loops of get_estimated_parameters / get_html / get_f12 / __str__ / get_latex, the attribute '
+        'sets of _calculate_stats and the writer scan (every open(.., "w")/to_csv/... of results.py, biogeme.py, database.py '
+        'receives a name assigned from get_new_file_name); each generated definition is validated on this run against the '
+        'implementation (streams names, backup, boolean, history, toml, reports: vm_compute of the generated definition vs real calls)',
+        'the hand-written models Model/FsOps.v (directory, splitext, rename/copy), Model/Params.v (parameter dictionary, TOML '
+        'document), Model/Reports.v (DataFrame.loc assignment), Model/Pickle.v (attribute dictionary) and the harness '
+        '(generators, snapshotting by sha256 + mtime, parsers of the rendered reports)',
+        'external code assumed, as Section hypotheses: tomlkit parse/dumps, pickle load/dump, pandas rendering, Python float '
+        'formatting, OS rename/copy/open semantics',
+    ]
+    for name, g in GENERATORS:
         try:
             g(ctx)
         except Untranslatable as e:
             ctx.tie_broken('py2v:' + name, str(e))
+    try:
+        ctx.notes['writers'] = [list(t) for t in scan_writers()]
+    except Untranslatable as e:
+        ctx.tie_broken('scan:writers', str(e))
     ctx.build()
-    stream_names(ctx)
-    stream_backup(ctx)
-    stream_boolean(ctx)
-    stream_history(ctx)
-    stream_toml(ctx)
+    streams = [stream_names, stream_backup, stream_boolean, stream_history, stream_toml, stream_reports, stream_pickle]
+    for f in streams:
+        f(ctx)
+    if ctx.broken and not ctx.violations:
+        # failing-input search: something no longer checks; evaluate the property oracles on more inputs
+        # (implementation only -- the model may be stale), the streams named in the broken items first
+        names = ' '.join(b['name'] + ' ' + b['detail'][:200] for b in ctx.broken)
+        order = sorted([stream_history, stream_reports, stream_pickle, stream_toml, stream_backup],
+                       key=lambda f: 0 if f.__name__.split('_')[1] in names.lower() else 1)
+        saved = len(ctx.broken)
+        for f in order:
+            old = ctx.seed
+            ctx.seed = f'{old}-search'
+            try:
+                f(ctx, n={'stream_history': ctx.n(96, 800), 'stream_reports': ctx.n(400, 3000), 'stream_pickle': ctx.n(150, 2000),
+                          'stream_toml': ctx.n(200, 2000), 'stream_backup': ctx.n(400, 4000)}[f.__name__],
+                  **({} if f is stream_pickle else {'with_model': False}))
+            finally:
+                ctx.seed = old
+            if ctx.violations:
+                break
+        del ctx.broken[saved:]
+
+
+def replay(ctx, path):
+    w = json.load(open(path))
+    wit, key = w.get('witness'), w.get('key') or ''
+    if not wit:
+        print('replay: this file names an obligation/stream; re-run ./check C14')
+        return 2
+    parts = key.split('/')
+    kind = parts[1] if len(parts) > 1 else 'names'
+    fn = {'names': stream_names, 'backup': stream_backup, 'boolean': stream_boolean, 'history': stream_history,
+          'toml': stream_toml, 'reports': stream_reports, 'pickle': stream_pickle}.get(kind)
+    if fn is None:
+        print('replay: unknown witness kind ' + kind)
+        return 2
+    case = wit['case'] if kind == 'history' and 'case' in wit else wit
+    fn(ctx, only=[case])
+    bad = bool(ctx.violations)
+    print(json.dumps({'key': key, 'still_fails': bad,
+                      'violations': [{'key': v['key'], 'what': v['what'][:300]} for v in ctx.violations[:3]]}))
+    import shutil
+    shutil.rmtree(ctx.scratch, ignore_errors=True)
+    return 1 if bad else 0
